@@ -12,7 +12,7 @@ EXPLANATION = (
     "modules is paired with a `<var>.reset(token)` whose token is, by value provenance, the result of that "
     "set (through a never-rebound local, or through one attribute from __enter__ to __exit__), and the reset "
     "lies on every CFG path from the set to every exit of the function (normal return, exception, generator "
-    "close/throw at a yield); for __enter__/__exit__ the reset is the first call of __exit__.  No other "
+    "close/throw at a yield); for __enter__/__exit__ the reset lies on every path of __exit__ to every exit, exceptional edges included.  No other "
     "write of the variable exists.  Parent lookup at creation is by current_action() only; start_task and "
     "the context-less branch of log_message build a fresh root and never touch the variable."
 )
